@@ -32,6 +32,8 @@ def rank_profiles(tier, rational=True, extra4=True):
             out += [("rat", c) for c in fam.prof_list(R3, 2, (H, TH), c3)]
             # weights around one million: transfer values whose denominators exceed 10**6 (exactness of Fraction weights)
             out += [("rat", c) for c in fam.prof_list(R3, 2, (1000003, 999983), c3)[::9]]
+            # weights that differ by one unit beyond double precision: tallies that are distinct only in exact arithmetic
+            out += [("rat", c) for c in fam.prof_list(R3, 2, (2**53, 2**53 + 1), c3)[::9]]
     else:
         out += [("int", c) for c in fam.prof_list(R3, 3, (1, 2, 3), c3)]
         out += [("int", c) for c in fam.prof_list(R2, 3, (1, 2), c2)]
@@ -42,6 +44,7 @@ def rank_profiles(tier, rational=True, extra4=True):
         if rational:
             out += [("rat", c) for c in fam.prof_list(R3, 2, (H, TH, THIRD), c3)]
             out += [("rat", c) for c in fam.prof_list(R3, 2, (1000003, 999983), c3)]
+            out += [("rat", c) for c in fam.prof_list(R3, 2, (2**53, 2**53 + 1), c3)[::3]]
     return out
 
 
@@ -49,13 +52,13 @@ def family_text(tier, rational=True, extra4=True):
     if tier == "quick":
         s = "Prof(Rank(3),2,{1,2}) + Prof(Rank(2),3,{1,2}) + Prof(Rank(1),1,{1,2})"
         if rational:
-            s += " + Prof(Rank(3),2,{1/2,3/2}) + every 9th of Prof(Rank(3),2,{1000003,999983})"
+            s += " + Prof(Rank(3),2,{1/2,3/2}) + every 9th of Prof(Rank(3),2,{1000003,999983}) and of Prof(Rank(3),2,{2^53,2^53+1})"
     else:
         s = "Prof(Rank(3),3,{1,2,3}) + Prof(Rank(2),3,{1,2}) + Prof(Rank(1),1,{1,2})"
         if extra4:
             s += " + Prof(Rank(4),2,{1,2})"
         if rational:
-            s += " + Prof(Rank(3),2,{1/2,3/2,1/3}) + Prof(Rank(3),2,{1000003,999983})"
+            s += " + Prof(Rank(3),2,{1/2,3/2,1/3}) + Prof(Rank(3),2,{1000003,999983}) + every 3rd of Prof(Rank(3),2,{2^53,2^53+1})"
     return s
 
 
